@@ -70,6 +70,12 @@ type FuncReport struct {
 }
 
 func main() {
+	// pinned tool chain (the default go cannot load /repo's go.mod); everything runs offline
+	os.Setenv("PATH", "/opt/veriftools/go1.26.8/bin:"+os.Getenv("PATH"))
+	os.Setenv("GOTOOLCHAIN", "local")
+	os.Setenv("GOFLAGS", "-mod=mod")
+	os.Setenv("GOPROXY", "off")
+	os.Setenv("GOSUMDB", "off")
 	if len(os.Args) < 2 {
 		fmt.Fprintln(os.Stderr, "usage: govc check <PROPERTY> [flags] | govc replay <FILE>")
 		os.Exit(3)
@@ -79,6 +85,8 @@ func main() {
 		os.Exit(cmdCheck(os.Args[2:]))
 	case "replay":
 		os.Exit(cmdReplay(os.Args[2:]))
+	case "ssa":
+		os.Exit(cmdSSA(os.Args[2:]))
 	default:
 		fmt.Fprintln(os.Stderr, "unknown command", os.Args[1])
 		os.Exit(3)
@@ -285,4 +293,38 @@ func verifyFunc(P *Program, name string, tier Tier, outDir string, known []Known
 	}
 	rep.WallMs = time.Since(t0).Milliseconds()
 	return rep
+}
+
+// cmdSSA prints the naive-form SSA of functions (debugging aid): govc ssa [--repo DIR] NAME...
+func cmdSSA(argv []string) int {
+	repo := "/repo"
+	if len(argv) > 1 && argv[0] == "--repo" {
+		repo = argv[1]
+		argv = argv[2:]
+	}
+	P, err := loadProgram(repo, "/verif/specs")
+	if err != nil {
+		fmt.Fprintln(os.Stderr, err)
+		return 2
+	}
+	for _, n := range argv {
+		fn := P.byName[n]
+		if fn == nil {
+			var cands []string
+			for k := range P.byName {
+				if strings.Contains(k, n) {
+					cands = append(cands, k)
+				}
+			}
+			sort.Strings(cands)
+			fmt.Printf("no function %s; candidates: %s\n", n, strings.Join(cands, " "))
+			continue
+		}
+		fn.WriteTo(os.Stdout)
+		li := computeLoops(fn)
+		for i, h := range li.heads {
+			fmt.Printf("# loop %d: head block %d\n", i, h.Index)
+		}
+	}
+	return 0
 }
